@@ -58,6 +58,8 @@ def configs(tier, seed):
                     continue
                 out.append(dict(h="rowperm", op=name, key=f"rowperm/{name}/{''.join(map(str, perm))}", ds=name, perm=list(perm)))
                 out.append(dict(h="rowperm", op=name, key=f"rowperm/{name}/{''.join(map(str, perm))}/columns_keep_labels", ds=name, perm=list(perm), columns=True))
+                # ... or with row labels that repeat, as two tables glued together with pd.concat have them
+                out.append(dict(h="rowperm", op=name, key=f"rowperm/{name}/{''.join(map(str, perm))}/columns_repeated_labels", ds=name, perm=list(perm), columns=True, repeated=True))
     return out
 
 
@@ -169,6 +171,9 @@ def run(cfg, w):
     if h == "rowperm":
         # dims in the index, or dims in columns with the rows re-ordered the usual pandas way (old integer labels kept)
         df = x.to_df(index=not cfg.get("columns")).iloc[cfg["perm"]]
+        if cfg.get("repeated"):
+            half = (len(df) + 1) // 2
+            df.index = list(range(half)) + list(range(len(df) - half))
         y = FlodymArray.from_df(dims=build_dims(name), df=df)
         for idx in np.ndindex(*dims.shape):
             w.ob(f"entry{list(idx)}", w.same(y.values[idx], X[idx]))
